@@ -73,7 +73,7 @@ def _solver(timeout_ms):
 def _run_conc(obl, case, values, seed, tier, max_tries=60):
     """Concrete run of the contract on the REAL (uninstrumented) functions.  Returns dict."""
     from .core import Ctx, Reject, Tol
-    Tol.rel, Tol.abs = (obl.tol, obl.tol) if obl.tol else (1e-8, 1e-9)   # float tolerance of the concrete evaluator
+    Tol.rel, Tol.abs = (obl.tol if isinstance(obl.tol, tuple) else (obl.tol, obl.tol)) if obl.tol else (1e-8, 1e-9)   # float tolerance of the concrete evaluator
     rng = random.Random(seed)
     tries = 0
     while True:
@@ -302,7 +302,11 @@ def _worker(args):
         wit_b = bad[0].get("witnesses", {}) if bad else {}
         if bad and pr.get("verdict") in ("proved", "known") and any(w == "*" or wit_b.get(w) for w in known_w):
             out["conc_known"] = True
-        elif bad and pr.get("verdict") == "proved":
+        elif bad:
+            # a failing concrete run of the contract on the real uninstrumented code is a violation with a replayable input,
+            # whatever the symbolic engine concluded (proved => inconsistency worth reporting; undecided / refuted => this is
+            # the failing input)
+            out["proof_verdict"] = pr.get("verdict")
             out.update(verdict="conc-fail", failed=bad[0].get("failed", []), values=bad[0]["inputs"],
                        exc=bad[0].get("exc"), tb=bad[0].get("tb"), witnesses=bad[0].get("witnesses", {}))
         return out
